@@ -390,3 +390,53 @@ Definition k1_net : net :=
 Theorem shortlist_ispart_refuted :
   exists n p inc, route_ok (ngraph n) 0 5 inc p = true /\ ispart inc (short_list n p) = false.
 Proof. exists k1_net, [0; 1; 2; 3; 4; 5], [3]. split; vm_compute; reflexivity. Qed.
+
+(* ------------------------------------------------------------------ links: direction does not matter *)
+Lemma norm_swap x y : norm (x, y) = norm (y, x).
+Proof.
+  unfold norm. cbn [fst snd]. destruct (x <=? y) eqn:E1, (y <=? x) eqn:E2; try reflexivity.
+  - assert (x = y) by lia. subst. reflexivity.
+  - lia.
+Qed.
+
+Lemma pairwise_rev l x y : In (x, y) (pairwise (rev l)) <-> In (y, x) (pairwise l).
+Proof.
+  rewrite !pairwise_spec. split.
+  - intros (l1 & l2 & H). exists (rev l2), (rev l1).
+    rewrite <- (rev_involutive l), H. rewrite rev_app_distr. cbn [rev]. rewrite <- !app_assoc. reflexivity.
+  - intros (l1 & l2 & H). exists (rev l2), (rev l1).
+    rewrite H. rewrite rev_app_distr. cbn [rev]. rewrite <- !app_assoc. reflexivity.
+Qed.
+
+Lemma filter_rev {A} (f : A -> bool) l : filter f (rev l) = rev (filter f l).
+Proof.
+  induction l as [|x t IH]; [reflexivity|]. cbn [rev filter]. rewrite filter_app, IH. cbn [filter].
+  destruct (f x); [reflexivity|]. rewrite app_nil_r. reflexivity.
+Qed.
+
+(* a path and the same sites walked the other way round use the same links *)
+Theorem links_rev n p l : In l (links n (rev p)) <-> In l (links n p).
+Proof.
+  unfold links, roadms. rewrite filter_rev, !in_map_iff. split.
+  - intros ((x, y) & Hn & Hin). apply (proj1 (pairwise_rev _ _ _)) in Hin. exists (y, x).
+    split; [rewrite <- norm_swap; exact Hn|exact Hin].
+  - intros ((x, y) & Hn & Hin). exists (y, x). split; [rewrite <- norm_swap; exact Hn|].
+    apply pairwise_rev. exact Hin.
+Qed.
+
+(* a link of p is an unordered pair of successive ROADMs of p *)
+Theorem links_spec n p a b :
+  In (a, b) (links n p) <->
+  a <= b /\ exists l1 l2, roadms n p = l1 ++ a :: b :: l2 \/ roadms n p = l1 ++ b :: a :: l2.
+Proof.
+  unfold links. rewrite in_map_iff. split.
+  - intros ((x, y) & Hn & Hin). apply pairwise_spec in Hin. destruct Hin as (l1 & l2 & H).
+    unfold norm in Hn. cbn [fst snd] in Hn. destruct (x <=? y) eqn:E.
+    + injection Hn as <- <-. split; [lia|]. exists l1, l2. left; exact H.
+    + injection Hn as <- <-. split; [lia|]. exists l1, l2. right; exact H.
+  - intros (Hab & l1 & l2 & [H|H]).
+    + exists (a, b). split; [unfold norm; cbn [fst snd]; assert (E : (a <=? b) = true) by lia; rewrite E; reflexivity|].
+      apply pairwise_spec. exists l1, l2. exact H.
+    + exists (b, a). split; [rewrite norm_swap; unfold norm; cbn [fst snd]; assert (E : (a <=? b) = true) by lia; rewrite E; reflexivity|].
+      apply pairwise_spec. exists l1, l2. exact H.
+Qed.
